@@ -67,6 +67,9 @@ def run_C07(tier, seed, t0):
     bits = 64 if tier == 'thorough' else 34
     specs = [('harness.kernels', 'hilo_task', (bits,)), ('harness.kernels', 'sign_extend_task', ())]
     specs += [('harness.pipe', 'hilo_pairs_task', (k, bits)) for k in range(7)]
+    # the same pairs executed (any instruction length): compression off and on, sp included
+    from .pipe import HILO_EXEC
+    specs += [('harness.pipe', 'hilo_exec_task', (k, bits, c)) for k in range(len(HILO_EXEC)) for c in (False, True)]
     # call / tail are auipc+jalr (%hi/%lo) pairs: label and constant targets, both modes
     for nm in ('call', 'tail'):
         for d in ('fwd', 'bwd', 'abs'):
